@@ -316,6 +316,11 @@ func (c *StandardClass) LoadForm() slip.Object {
 	return def
 }
 
+// IsFinal returns true if the class is built in and can not be redefined.
+func (c *StandardClass) IsFinal() bool {
+	return c.Final
+}
+
 // Ready returns true when the class is ready for use or that all superclasses
 // have been defined and merged.
 func (c *StandardClass) Ready() bool {
